@@ -14,11 +14,14 @@ ROOT = os.path.dirname(os.path.dirname(os.path.abspath(__file__)))
 def monitor(obs_path, hcfg, workdir, spec="ManagedObs.tla", timeout=1800):
     os.makedirs(workdir, exist_ok=True)
     cfg = os.path.join(workdir, "obs.cfg")
+    rt = "TRUE" if hcfg.get("has_runtime", True) else "FALSE"
     with open(cfg, "w") as f:
-        f.write("SPECIFICATION Spec\nCONSTANTS\n  NPre = %d\n  NPost = %d\n  NPc = %d\n  HasRuntime = %s\n"
-                "POSTCONDITION Consumed\nCHECK_DEADLOCK FALSE\n"
-                % (hcfg.get("npre", 0), hcfg.get("npost", 0), hcfg.get("npc", 0),
-                   "TRUE" if hcfg.get("has_runtime", True) else "FALSE"))
+        if spec == "ManagedObs.tla":
+            f.write("SPECIFICATION Spec\nCONSTANTS\n  NPre = %d\n  NPost = %d\n  NPc = %d\n  HasRuntime = %s\n"
+                    "POSTCONDITION Consumed\nCHECK_DEADLOCK FALSE\n"
+                    % (hcfg.get("npre", 0), hcfg.get("npost", 0), hcfg.get("npc", 0), rt))
+        else:
+            f.write("SPECIFICATION Spec\nCONSTANTS\n  HasRuntime = %s\nPOSTCONDITION Consumed\nCHECK_DEADLOCK FALSE\n" % rt)
     env = dict(os.environ)
     env["OBS"] = os.path.abspath(obs_path)
     env["JAVA_TOOL_OPTIONS"] = "-Xss1g"
